@@ -1,7 +1,7 @@
 from collections import Counter
 from itertools import product
 from networkx import DiGraph, find_cycle
-from numpy import zeros, ones, array, random, log, sum, max, argmax, argsort, unique, intersect1d, where
+from numpy import zeros, ones, array, random, log, sum, max, all, argmax, argsort, unique, intersect1d, where
 
 from dsw.operation import Monitor, calculus_addition, calculus_multiplication, calculus_division
 from dsw.operation import bit_to_number, number_to_bit, number_to_dna, dna_to_number
@@ -668,32 +668,21 @@ def connect_coding_graph(observed_length, vertices, threshold, verbose=False):
                 monitor(vertex_index + 1, len(vertices))
 
         if threshold == 1:
-            while True:
-                vertices = obtain_vertices(accessor)
-                graph = DiGraph()
-                for former_index, latter_indices in enumerate(accessor):
-                    for latter_index in latter_indices:
-                        if latter_index >= 0:
-                            graph.add_edge(u_of_edge=former_index, v_of_edge=latter_index)
-                useless_vertices, cycle = [], find_cycle(graph)
-                for former_index, latter_index in cycle:
-                    if len(where(accessor[former_index] >= 0)[0]) == 1:
-                        useless_vertices.append(former_index)
-                if len(useless_vertices) == len(cycle):
-                    for useless_vertex in useless_vertices:
-                        accessor[useless_vertex] = -1
-                        pairs = [(i, useless_vertex) for i in obtain_formers(useless_vertex, 10)]
-                        while len(pairs) > 0:
-                            new_pairs = []
-                            for former_index, latter_index in pairs:
-                                previous = len(where(accessor[former_index] >= 0)[0])
-                                accessor[former_index, latter_index % 4] = -1
-                                current = len(where(accessor[former_index] >= 0)[0])
-                                if previous > current == 0:
-                                    new_pairs += [(i, former_index) for i in obtain_formers(former_index, 10)]
-                            pairs = new_pairs
-                else:
+            while True:  # remove the vertices that cannot reach any vertex containing information (out-degree > 1).
+                informative = sum(accessor >= 0, axis=1) > 1
+                while True:
+                    reached = informative | ((accessor >= 0) & informative[accessor]).any(axis=1)
+                    if all(reached == informative):
+                        break
+                    informative = reached
+                useless = (accessor >= 0) & ~(informative.reshape(-1, 1) & informative[accessor])
+                if not useless.any():
                     break
+                accessor[useless] = -1
+
+            vertices = obtain_vertices(accessor)
+            if len(vertices) < 1:
+                raise ValueError("No coding graph is created!")
 
         if verbose:
             print("The coding graph is created.")
